@@ -106,6 +106,8 @@ def shapes() -> dict[str, tuple[dict, list]]:
                    [("s", "0", "m1"), ("s", "0", "m2"), ("a", "0", "k"), ("b", "0", "k"), ("c", "0", "k")])
     S["twofan"] = ({"s": one, "m1": one, "m2": one, "p": one, "q1": one, "q2": one, "q3": one, "q4": one, "q5": one},
                    [("s", "0", "m1"), ("s", "0", "m2")] + [("p", "0", f"q{i}") for i in range(1, 6)])
+    # dataset names whose plain concatenation coincides: ("g1", "0") and ("g", "10")
+    S["collide"] = ({"g": twelve, "g1": one, "u": one}, [("g", "10", "u"), ("g1", "0", "u")])
     S["fanout4"] = ({"s": one, "m1": one, "m2": one, "m3": one, "m4": one}, [("s", "0", "m1"), ("s", "0", "m2"), ("s", "0", "m3"), ("s", "0", "m4")])
     S["multiout3"] = ({"g": ["0", "1", "2"], "u": one, "v": one}, [("g", "0", "u"), ("g", "2", "u"), ("g", "1", "v")])
     S["sixtasks"] = ({"a": one, "b": one, "c": one, "d": one, "p": one, "q": one},
@@ -170,6 +172,9 @@ def quick_instances() -> list[Instance]:
     for shape, ext in [("fanout", [("m1", "0"), ("m2", "0")]), ("fanout4", [("m1", "0"), ("m4", "0")]), ("diamond", [("s", "0"), ("k", "0")])]:
         outs, edges = S[shape]
         I.append(Instance(f"{shape}_3x1_threehosts", outs, edges, cluster(3, 1), ext, trace_only=True))
+    for nh, nw in [(1, 1), (2, 1)]:
+        outs, edges = S["collide"]
+        I.append(Instance(f"collide_{nh}x{nw}_sink", outs, edges, cluster(nh, nw), [("u", "0"), ("g", "1")], trace_only=True))
     # mixed hosts: what Executor registers with one GPU and two workers (w0 has it, w1 has none), next to a GPU-less host
     for shape, nh, nw, gw, gt in [("gpufan", 1, 2, ["h0.w0"], ["g1", "g2", "g3"]), ("gpufan", 2, 2, ["h0.w0"], ["g1", "g2", "g3"]),
                                   ("gpufan", 2, 2, ["h0.w1", "h1.w0"], ["g1", "g2"]), ("gpusrc2", 1, 2, ["h0.w0"], ["g1", "g2"]),
@@ -185,7 +190,7 @@ def thorough_instances() -> list[Instance]:
     I = list(quick_instances())
     seen = {i.name for i in I}
     for shape, (outs, edges) in S.items():
-        if shape in ("empty", "manyout", "manyin", "sixtasks", "gpumix", "fanout4", "gpufan", "gpusrc2", "fanvee", "twofan"):
+        if shape in ("empty", "manyout", "manyin", "sixtasks", "gpumix", "fanout4", "gpufan", "gpusrc2", "fanvee", "twofan", "collide"):
             continue
         alld = [(t, o) for t in outs for o in outs[t]]
         snk = sinks(outs, edges)
